@@ -41,6 +41,9 @@ class SOpt:
 class SList:
     """list of abstract items (ints naming them) with symbolic length: element k is arr[k]"""
     def __init__(s, arr, n): s.arr = arr; s.n = n
+class GhostList:
+    """a result list whose elements are checked when they are appended (Engine.list_append_hook) and not tracked afterwards"""
+    def __init__(s, name): s.name = name
 @dataclass(frozen=True)
 class Ref:
     oid: int
@@ -123,6 +126,37 @@ class State:
     def cls(s, ref): return s.heap[ref.oid][0]
 
 class Unsupported(Exception): pass
+
+_light_cache = {}
+_uf_for = {}
+def _light(e):
+    """the form of a hypothesis used in path-feasibility checks: quantified facts are dropped and recursive spec functions are
+    replaced by uninterpreted ones (weaker facts: a path can only look *more* feasible, which is sound, and the check stays cheap)"""
+    k = e.get_id()
+    r = _light_cache.get(k)
+    if r is not None: return r[0]
+    seen = set(); stack = [e]; quant = False; recs = {}
+    while stack:
+        x = stack.pop()
+        if x.get_id() in seen: continue
+        seen.add(x.get_id())
+        if z3.is_quantifier(x): quant = True; break
+        if z3.is_app(x):
+            d = x.decl()
+            if d.kind() == z3.Z3_OP_RECURSIVE: recs[d.name()] = d
+            stack.extend(x.children())
+    if quant: res = None
+    elif not recs: res = e
+    else:
+        subs = []
+        for nm, d in recs.items():
+            if nm not in _uf_for:
+                doms = [d.domain(i) for i in range(d.arity())]
+                _uf_for[nm] = z3.Function(nm + "__uf", *doms, d.range())
+            subs.append((d, _uf_for[nm](*[z3.Var(i, d.domain(i)) for i in range(d.arity())])))
+        res = z3.substitute_funs(e, *subs)
+    _light_cache[k] = (res, e)      # keep e alive so that ids are not reused
+    return res
 
 @dataclass
 class Obligation:
@@ -301,7 +335,7 @@ class Engine:
             raise Unsupported(f"module attr {q}")
         if isinstance(base, tuple) and base and base[0] in ("pymodule", "pyattr"):
             return [(st, ("pyattr", base[1] + "." + attr))]
-        if isinstance(base, (SBytes, SStr, list, str, SList, dict)):
+        if isinstance(base, (SBytes, SStr, list, str, SList, dict, GhostList)):
             return [(st, ("bmeth", base, attr, node))]
         hook = getattr(s, "getattr_hook", None)
         if hook is not None:
@@ -581,12 +615,19 @@ class Engine:
         if isinstance(base, (list, tuple, str, bytes)) and not is_sym(lo) and not is_sym(hi): return base[lo:hi]
         if isinstance(base, SBytes):
             n = base.n
+            def can(c):
+                t = st.fork(); t.pc.append(c); return s.feasible(t)
             def norm(v, default):
                 if v is None: return default
                 x = to_int(v)
+                if isinstance(v, int) and v >= 0: return x if not can(x > n) else z3.If(x > n, n, x)
+                neg, big = can(x < 0), can(x > n)         # drop the clamping cases the path condition excludes (keeps index terms linear)
+                if not neg and not big: return x
+                if not neg: return z3.If(x > n, n, x)
                 return z3.If(x < 0, z3.If(x + n < 0, 0, x + n), z3.If(x > n, n, x))
             l, h = norm(lo, z3.IntVal(0)), norm(hi, n)
-            return SBytes(base.arr, z3.simplify(z3.If(h > l, h - l, 0)), z3.simplify(base.off + l))
+            ln = h - l if not can(h < l) else z3.If(h > l, h - l, 0)
+            return SBytes(base.arr, z3.simplify(ln), z3.simplify(base.off + l))
         if isinstance(base, (SStr, str)):
             e = to_str(base); n = z3.Length(e)
             def norm(v, default):
@@ -695,8 +736,11 @@ class Engine:
         return out
 
     def bmeth(s, base, attr, st, args, ctx, node, kw=None):
-        if isinstance(base, list) and attr == "append":
-            base.append(args[0]); return [(st, None)]
+        if isinstance(base, (list, GhostList)) and attr == "append":
+            hook = getattr(s, "list_append_hook", None)
+            if hook is not None: hook(st, base, args[0], ctx, node)
+            if isinstance(base, list): base.append(args[0])
+            return [(st, None)]
         h = s.prelude_methods.get(attr)
         if h is not None: return h(s, st, base, args, ctx, node)
         raise Unsupported(f"method {attr} line {node.lineno}")
@@ -892,7 +936,8 @@ class Engine:
 
     def feasible(s, st):
         s.stats["feasibility_checks"] += 1
-        sol = z3.Solver(); sol.set("timeout", 1500); sol.add(*st.pc)
+        # quantified hypotheses are left out: dropping facts can only make a path look feasible (sound), and keeps the check cheap
+        sol = z3.Solver(); sol.set("timeout", 1500); sol.add(*[x for x in (_light(h) for h in st.pc) if x is not None])
         return sol.check() != z3.unsat
 
     def x_For(s, stmt, st, ctx):
@@ -943,7 +988,7 @@ class Engine:
         """for i in range(lo, hi) with symbolic bounds / for x in <symbolic sequence> / while cond -- needs a loop spec.
         spec = (inv(st, eng) -> z3 Bool, dec(st, eng) -> z3 Int | None, {local: width}, optional havoc(st, eng) for heap state)"""
         if stmt.orelse: raise Unsupported("loop else")
-        no = ctx.next_loop()
+        no = ctx.loop_ordinal(stmt)
         spec = s.loop_specs.get((ctx.qual, no))
         if spec is None: raise Unsupported(f"loop #{no} of {ctx.qual} needs an invariant")
         inv, dec, ltypes = spec[:3]; havoc_heap = spec[3] if len(spec) > 3 else None
@@ -957,7 +1002,7 @@ class Engine:
         elif is_for:
             lo_e, hi_e = z3.IntVal(0), seq.n
             ivar = idx_name; st.locals[ivar] = 0
-        ctx.oblige(st, f"inv-entry#{no}", inv(st, s), stmt)
+        for nm, g in _inv_parts(inv(st, s)): ctx.oblige(st, f"inv-entry#{no}{nm}", g, stmt)
         st_h = st.fork()
         for name in sorted(s.assigned_names(stmt.body) | ({ivar} if is_for else set())):
             cur = st_h.locals.get(name)
@@ -968,11 +1013,20 @@ class Engine:
                 st_h.locals[name] = SBV(fresh(name, z3.BitVecSort(w)))
             elif name in st_h.locals:
                 st_h.locals[name] = s.havoc_like(cur, name)
-        if havoc_heap: havoc_heap(st_h, s)
+        shapes = [st_h]
+        if havoc_heap:
+            r = havoc_heap(st_h, s)
+            if isinstance(r, list): shapes = r
+        outs = []
+        for st_h in shapes:
+            outs += s._loop_from(stmt, st_h, ctx, no, inv, dec, ltypes, is_for, seq, ivar if is_for else None, lo_e if is_for else None, hi_e if is_for else None)
+        return outs
+
+    def _loop_from(s, stmt, st_h, ctx, no, inv, dec, ltypes, is_for, seq, ivar, lo_e, hi_e):
         if is_for:
             iv = st_h.locals[ivar]
             st_h.pc += [to_int(iv) >= lo_e, to_int(iv) <= z3.If(hi_e > lo_e, hi_e, lo_e)]
-        st_h.pc.append(inv(st_h, s))
+        st_h.pc += [g for _, g in _inv_parts(inv(st_h, s))]
         outs = []
         if is_for:
             guard = to_int(st_h.locals[ivar]) < hi_e
@@ -998,7 +1052,7 @@ class Engine:
                         if isinstance(v, SBV) and v.w <= w: st2.locals[name] = SBV(to_bv(v, w))
                         elif isinstance(v, int) and not isinstance(v, bool): ctx.oblige(st2, f"range#{no}", z3.BoolVal(0 <= v < (1 << w)), stmt)
                         else: raise Unsupported(f"range of {name}: {v!r}")
-                    ctx.oblige(st2, f"inv-keep#{no}", inv(st2, s), stmt)
+                    for nm, g in _inv_parts(inv(st2, s)): ctx.oblige(st2, f"inv-keep#{no}{nm}", g, stmt)
                     if dec:
                         d1 = dec(st2, s); ctx.oblige(st2, f"dec#{no}", z3.And(d0 >= 0, d1 < d0), stmt)
                 elif f2 == BREAK: outs.append((st2, NORMAL, None))
@@ -1019,6 +1073,7 @@ class Engine:
         if isinstance(cur, SOpt) or cur is None: return SOpt(fresh(name + "_none", z3.BoolSort()), fresh(name, z3.IntSort()))
         if isinstance(cur, SList):
             n = fresh(name + "_n", z3.IntSort()); s.len_vars.append(n); return SList(fresh(name, INT_ARR), n)
+        if isinstance(cur, (list, GhostList)): return GhostList(name)
         raise Unsupported(f"havoc {name}: {cur!r}")
 
     # ------------------------------------------------------------------ calls
@@ -1084,6 +1139,11 @@ class Engine:
             all_obls += ctx.obls
         return all_obls
 
+def _inv_parts(r):
+    """a loop invariant is a z3 Bool or a list of (name, z3 Bool) clauses (one obligation per clause)"""
+    if isinstance(r, (list, tuple)): return [(":" + nm, g) for nm, g in r]
+    return [("", r)]
+
 class Ctx:
     def __init__(s, eng, module, cls, qual, parent=None, root_name=None):
         s.eng = eng; s.module = module; s.cls = cls; s.qual = qual
@@ -1107,6 +1167,14 @@ class Ctx:
                 for al in node.names:
                     s.imports[al.asname or al.name.split(".")[0]] = ("module", al.name) if al.name in eng.trees else ("pymodule", al.name)
     def next_loop(s): return next(s._loop)
+    def loop_ordinal(s, stmt):
+        """lexical ordinal of a loop statement inside its function (stable across paths)"""
+        fn = s.eng.funcs.get(s.qual)
+        if fn is None: return s.next_loop()
+        loops = sorted((n for n in ast.walk(fn[0]) if isinstance(n, (ast.For, ast.While))), key=lambda n: (n.lineno, n.col_offset))
+        for i, n in enumerate(loops):
+            if n is stmt: return i
+        return s.next_loop()
     def oblige(s, st, kind, goal, node, reveal=False, **meta):
         g = goal if isinstance(goal, z3.ExprRef) else z3.BoolVal(bool(goal))
         if z3.is_true(z3.simplify(g)): return
